@@ -127,7 +127,7 @@ def term_class(t, body=None, depth=0):
 
 
 def _short(name):
-    return re.sub(r"(?:[a-z_0-9]+::)+(?=[A-Za-z_<{\[])", "", name or "?")
+    return re.sub(r"(?<![A-Za-z0-9_])(?:[a-z_0-9]+::)+(?=[A-Za-z_<{\[])", "", name or "?")
 
 
 def describe(S, site):
